@@ -44,11 +44,17 @@ of the class; `ensure_protocol` = `withProto`).  Then, for `u`, `u'` cleaning to
   `canon_path_escaped_space_string` (`%20` vs raw space), `canon_path_escaped_utf8_string`
   (`é` vs `%C3%A9` / `%c3%a9`);
 * `canon_fragment_escaped_ascii_string`, `canon_fragment_escaped_space_string`,
-  `canon_fragment_escaped_utf8_string` — the same three in the fragment.
+  `canon_fragment_escaped_utf8_string` — the same three in the fragment;
+* `canon_query_escaped_*_string`, `canon_userinfo_escaped_*_string` — the same three inside the
+  query (any key or value) and inside the user info (user name or password); general forms
+  `canon_query_subst_string`, `canon_userinfo_subst_string`;
+* `canon_punycode_label_string` — a host label written `xn--…` or as the decoder reads it
+  (`PunyLaws`, `PunyCase`).
 
-Not here (see `UNPROVED` of `harness/props/C02.py`): escape spelling inside userinfo items and
-query items at whole-function level (component theorems `opt_…`, `canonQuery_…` +
-`safelyUnquote_escaped_*`), punycode vs Unicode labels, the mode round trips.
+Compositions: every theorem is an equation between the results on two arbitrary strings of the
+class, so a chain `u₀, u₁ = T₁ u₀, u₂ = T₂ u₁ …` composes by transitivity as long as the
+intermediate strings are in the class.  Not here (see `UNPROVED` of `harness/props/C02.py`): the
+mode round trips and quoted-mode idempotence of the whole function; strings outside the class.
 -/
 set_option linter.unusedSimpArgs false
 set_option linter.unusedVariables false
@@ -301,11 +307,15 @@ theorem canonSplit_congr (puny : Str → Str) (q sf : Bool) (p p' : Parsed)
     · rfl
   simp only [canonSplit, canonParts, hui, hc, hbh]
 
-/-- two terms of the class with the same user info whose scheme, host, port, path, query and
-fragment rules agree -/
+/-- two terms of the class whose scheme, user-info, host, port, path, query and fragment rules
+agree -/
 theorem canonG_congr (puny : Str → Str) (o : Opts) (g g' : UrlG) (hw : g.wf = true)
     (hw' : g'.wf = true) (hproto : schemeOf o.defaultProtocol g'.proto = schemeOf o.defaultProtocol g.proto)
-    (hui : g'.ui = g.ui) (hbr : g'.br = g.br)
+    (huser : canonOpt o.quoted unquoteAuthItem (g'.ui.map fun u => (splitFirst u ':').1) =
+      canonOpt o.quoted unquoteAuthItem (g.ui.map fun u => (splitFirst u ':').1))
+    (hpass : canonOpt o.quoted unquoteAuthItem (g'.ui.bind fun u => (splitFirst u ':').2) =
+      canonOpt o.quoted unquoteAuthItem (g.ui.bind fun u => (splitFirst u ':').2))
+    (hbr : g'.br = g.br)
     (hpath : ∀ m, canonPath g'.path m = canonPath g.path m)
     (hquery : canonQuery o.quoted (g'.query.getD []) = canonQuery o.quoted (g.query.getD []))
     (hqe : (g'.query.getD []).isEmpty = (g.query.getD []).isEmpty)
@@ -329,8 +339,8 @@ theorem canonG_congr (puny : Str → Str) (o : Opts) (g g' : UrlG) (hw : g.wf = 
       rw [userinfoBrackets_netloc (wf_facts hw), userinfoBrackets_netloc (wf_facts hw')]
     · show bracketedHost g'.netloc = bracketedHost g.netloc
       rw [bracketedHost_netloc (wf_facts hw), bracketedHost_netloc (wf_facts hw'), hbr]
-    · simp only [recordC, UrlG.record, hui]
-    · simp only [recordC, UrlG.record, hui]
+    · exact huser
+    · exact hpass
     · exact hhost
     · exact hpp
     · exact hpath
@@ -358,8 +368,8 @@ theorem canonG_congr_authority (puny : Str → Str) (o : Opts) (g g' : UrlG) (hw
       (portVal g.port).map (portRule (schemeOf o.defaultProtocol g.proto)))
     (hsome : portVal g'.port = none ↔ portVal g.port = none) :
     canonG puny o g' = canonG puny o g :=
-  canonG_congr puny o g g' hw hw' hproto hui hbr (by rw [hpath]; intro m; rfl) (by rw [hquery])
-    (by rw [hquery]) (by rw [hfrag]) (by rw [hfrag]) hhost hport hsome
+  canonG_congr puny o g g' hw hw' hproto (by rw [hui]) (by rw [hui]) hbr (by rw [hpath]; intro m; rfl)
+    (by rw [hquery]) (by rw [hquery]) (by rw [hfrag]) (by rw [hfrag]) hhost hport hsome
 
 /-! ## letter case of the scheme (and the implied default protocol) -/
 
@@ -571,7 +581,7 @@ theorem canonG_path (puny : Str → Str) (o : Opts) (g : UrlG) (p' : Str)
     (h : ∀ m, canonPath p' m = canonPath g.path m)
     (hw : g.wf = true) (hw' : ({ g with path := p' } : UrlG).wf = true) :
     canonG puny o ({ g with path := p' } : UrlG) = canonG puny o g :=
-  canonG_congr puny o g _ hw hw' rfl rfl rfl h rfl rfl rfl rfl rfl rfl Iff.rfl
+  canonG_congr puny o g _ hw hw' rfl rfl rfl rfl h rfl rfl rfl rfl rfl rfl Iff.rfl
 
 /-- **two paths with the same canonical path** give the same result, on strings -/
 theorem canon_path_string (puny : Str → Str) (o : Opts) (hdp : ProtoLetters o.defaultProtocol)
@@ -668,7 +678,7 @@ theorem canonG_fragment (puny : Str → Str) (o : Opts) (g : UrlG) (f f' : Str) 
     canonG puny o ({ g with fragment := some f' } : UrlG) = canonG puny o g := by
   have e1 : f.isEmpty = false := by cases f with | nil => exact absurd rfl hne | cons _ _ => rfl
   have e2 : f'.isEmpty = false := by cases f' with | nil => exact absurd rfl hne' | cons _ _ => rfl
-  refine canonG_congr puny o g _ hw hw' rfl rfl rfl (fun _ => rfl) rfl rfl ?_ ?_ rfl rfl Iff.rfl
+  refine canonG_congr puny o g _ hw hw' rfl rfl rfl rfl (fun _ => rfl) rfl rfl ?_ ?_ rfl rfl Iff.rfl
   · simp only [hf, Option.getD_some, canonOpt, e1, e2, Bool.false_eq_true, if_false, requote, h]
   · simp only [hf, Option.getD_some, e1, e2]
 
@@ -716,6 +726,200 @@ theorem canon_fragment_escaped_utf8_string (puny : Str → Str) (o : Opts) (hdp 
       | cons p r => simp [escStr] at e)
     (by simp)
     (safelyUnquote_escaped_utf8 _ tables_fragment.2 x y c hc hs hhex hb).symm u u' hg hg'
+
+/-! ## escape spelling inside the query and the user info
+
+The query is split at `&` and `=`, the user info at `:`, before anything is unquoted: a
+substitution `m1 ↦ m2` of pieces that hold none of these separators stays inside one key, value,
+user name or password (`splitOn_subst_shape`, `splitFirst_subst_shape`), where the safe unquoter
+does not see it (`Interch`: discharged by `interch_ascii` — `%41` vs `A` —, `interch_space` — `%20`
+vs a raw space —, `interch_utf8` — `é` vs `%C3%A9` / `%c3%a9`). -/
+
+theorem isEmpty_mid (a m b : Str) (hm : m ≠ []) : (a ++ (m ++ b)).isEmpty = false := by
+  cases a with
+  | cons _ _ => rfl
+  | nil => cases m with
+    | nil => exact absurd rfl hm
+    | cons _ _ => rfl
+
+theorem unquoteQsl_subst (x y m1 m2 : Str) (h1 : '&' ∉ m1 ∧ '=' ∉ m1) (h2 : '&' ∉ m2 ∧ '=' ∉ m2)
+    (H : Interch Gen.Quote.unsafeForQueryItem x m1 m2) :
+    unquoteQsl (safeQslIter (x ++ (m1 ++ y))) = unquoteQsl (safeQslIter (x ++ (m2 ++ y))) := by
+  obtain ⟨A, B, p, s, _, hp, e1, e2⟩ := splitOn_subst_shape '&' y m1 m2 h1.1 h2.1 x
+  rw [safeQslIter_eq, safeQslIter_eq, e1, e2]
+  simp only [unquoteQsl, List.map_append, List.map_cons]
+  congr 2
+  rw [cutFirst_eq_splitFirst, cutFirst_eq_splitFirst]
+  rcases splitFirst_subst_shape '=' p s m1 m2 h1.2 h2.2 with ⟨k, v, hv, f1, f2⟩ | ⟨t, o, f1, f2⟩
+  · rw [f1, f2]
+    have := H v s (hv.trans hp)
+    simp only [Option.map_some, unquoteQueryItem] at this ⊢
+    rw [this]
+  · rw [f1, f2]
+    have := H p t hp
+    simp only [unquoteQueryItem] at this ⊢
+    rw [this]
+
+/-- on the pieces -/
+theorem canonG_query_subst (puny : Str → Str) (o : Opts) (g : UrlG) (x y m1 m2 : Str)
+    (hq : g.query = some (x ++ (m1 ++ y))) (hn1 : m1 ≠ []) (hn2 : m2 ≠ [])
+    (h1 : '&' ∉ m1 ∧ '=' ∉ m1) (h2 : '&' ∉ m2 ∧ '=' ∉ m2)
+    (H : Interch Gen.Quote.unsafeForQueryItem x m1 m2)
+    (hw : g.wf = true) (hw' : ({ g with query := some (x ++ (m2 ++ y)) } : UrlG).wf = true) :
+    canonG puny o ({ g with query := some (x ++ (m2 ++ y)) } : UrlG) = canonG puny o g := by
+  refine canonG_congr puny o g _ hw hw' rfl rfl rfl rfl (fun _ => rfl) ?_ ?_ rfl rfl rfl rfl Iff.rfl
+  · simp only [hq, Option.getD_some, canonQuery, unquoteQsl_subst x y m1 m2 h1 h2 H]
+  · simp only [hq, Option.getD_some, isEmpty_mid _ _ _ hn1, isEmpty_mid _ _ _ hn2]
+
+/-- **interchangeable pieces inside the query never change the result** (general form; the
+three named laws follow) -/
+theorem canon_query_subst_string (puny : Str → Str) (o : Opts) (hdp : ProtoLetters o.defaultProtocol)
+    (g : UrlG) (x y m1 m2 : Str) (hq : g.query = some (x ++ (m1 ++ y))) (hn1 : m1 ≠ []) (hn2 : m2 ≠ [])
+    (h1 : '&' ∉ m1 ∧ '=' ∉ m1) (h2 : '&' ∉ m2 ∧ '=' ∉ m2)
+    (H : Interch Gen.Quote.unsafeForQueryItem x m1 m2)
+    (u u' : Str) (hg : CleansTo g u) (hg' : CleansTo { g with query := some (x ++ (m2 ++ y)) } u') :
+    canonicalizeUrl puny o u' = canonicalizeUrl puny o u :=
+  string_of_canonG puny o hdp _ _ u u' hg hg'
+    (canonG_query_subst puny o g x y m1 m2 hq hn1 hn2 h1 h2 H hg.wf hg'.wf)
+
+theorem tables_query : (0x25 : UInt8) ∈ Gen.Quote.unsafeForQueryItem ∧ AsciiSet Gen.Quote.unsafeForQueryItem :=
+  ⟨tables_modes.2.2.2.2.1, tables_modes.2.2.2.2.2.1⟩
+
+theorem tables_auth : (0x25 : UInt8) ∈ Gen.Quote.unsafeForAuthItem ∧ AsciiSet Gen.Quote.unsafeForAuthItem :=
+  ⟨tables_modes.1, tables_modes.2.1⟩
+
+theorem hex_ne {h d : Char} (hh : isHexDigit h = true) (hd : isHexDigit d = false) : d ≠ h := by
+  rintro rfl; rw [hh] at hd; cases hd
+
+theorem not_mem_esc3 {sep : Char} (hp : sep ≠ '%') (hs : isHexDigit sep = false) {h1 h2 : Char}
+    (hh1 : isHexDigit h1 = true) (hh2 : isHexDigit h2 = true) : sep ∉ ['%', h1, h2] := by
+  simp only [List.mem_cons, List.not_mem_nil, or_false, not_or]
+  exact ⟨hp, hex_ne hh1 hs, hex_ne hh2 hs⟩
+
+/-- **`%41` vs `A` inside the query** (in a key or in a value, anywhere): the escape stands for
+an ASCII byte the query-item table does not keep escaped (so neither `&` nor `=`) -/
+theorem canon_query_escaped_ascii_string (puny : Str → Str) (o : Opts) (hdp : ProtoLetters o.defaultProtocol)
+    (g : UrlG) (x y : Str) (h1 h2 : Char) (hq : g.query = some (x ++ '%' :: h1 :: h2 :: y))
+    (hh1 : isHexDigit h1 = true) (hh2 : isHexDigit h2 = true)
+    (hk : keepEsc Gen.Quote.unsafeForQueryItem (byteOf h1 h2) = false) (hlt : (byteOf h1 h2).toNat < 0x80)
+    (hctx : isHexDigit (Char.ofNat (byteOf h1 h2).toNat) = true → openPct x = false)
+    (u u' : Str) (hg : CleansTo g u)
+    (hg' : CleansTo { g with query := some (x ++ Char.ofNat (byteOf h1 h2).toNat :: y) } u') :
+    canonicalizeUrl puny o u' = canonicalizeUrl puny o u :=
+  canon_query_subst_string puny o hdp g x y ['%', h1, h2] [Char.ofNat (byteOf h1 h2).toNat] hq
+    (by simp) (by simp)
+    ⟨not_mem_esc3 (by decide) (by decide) hh1 hh2, not_mem_esc3 (by decide) (by decide) hh1 hh2⟩
+    ⟨by simpa using (decoded_ne_of_mem hk hlt (d := '&') (by decide) (by decide)).symm,
+     by simpa using (decoded_ne_of_mem hk hlt (d := '=') (by decide) (by decide)).symm⟩
+    (interch_ascii _ tables_query.1 x h1 h2 hh1 hh2 hk hlt hctx) u u' hg hg'
+
+/-- **a raw space vs `%20` inside the query** -/
+theorem canon_query_escaped_space_string (puny : Str → Str) (o : Opts) (hdp : ProtoLetters o.defaultProtocol)
+    (g : UrlG) (x y : Str) (hq : g.query = some (x ++ '%' :: '2' :: '0' :: y))
+    (u u' : Str) (hg : CleansTo g u) (hg' : CleansTo { g with query := some (x ++ ' ' :: y) } u') :
+    canonicalizeUrl puny o u' = canonicalizeUrl puny o u :=
+  canon_query_subst_string puny o hdp g x y ['%', '2', '0'] [' '] hq (by simp) (by simp)
+    (by decide) (by decide) (interch_space _ x) u u' hg hg'
+
+/-- **a non-ASCII character vs its escaped UTF-8 bytes inside the query** -/
+theorem canon_query_escaped_utf8_string (puny : Str → Str) (o : Opts) (hdp : ProtoLetters o.defaultProtocol)
+    (g : UrlG) (x y : Str) (c : Char) (hc : 0x80 ≤ c.toNat) (hs : List (Char × Char))
+    (hhex : ∀ p ∈ hs, isHexDigit p.1 = true ∧ isHexDigit p.2 = true)
+    (hb : hs.map (fun p => byteOf p.1 p.2) = utf8 c)
+    (hq : g.query = some (x ++ (escStr hs ++ y)))
+    (u u' : Str) (hg : CleansTo g u) (hg' : CleansTo { g with query := some (x ++ c :: y) } u') :
+    canonicalizeUrl puny o u' = canonicalizeUrl puny o u := by
+  have hne : escStr hs ≠ [] := by
+    intro e
+    have : hs ≠ [] := by intro e2; rw [e2] at hb; exact utf8_ne_nil c hb.symm
+    cases hs with
+    | nil => exact this rfl
+    | cons p r => simp [escStr] at e
+  have ha : c ≠ '&' := char_ne_of_toNat (by have : ('&' : Char).toNat = 38 := rfl; omega)
+  have he : c ≠ '=' := char_ne_of_toNat (by have : ('=' : Char).toNat = 61 := rfl; omega)
+  exact canon_query_subst_string puny o hdp g x y (escStr hs) [c] hq hne (by simp)
+    ⟨not_mem_escStr ⟨by decide, by decide⟩ hs hhex, not_mem_escStr ⟨by decide, by decide⟩ hs hhex⟩
+    ⟨by simpa using ha.symm, by simpa using he.symm⟩
+    (interch_utf8 _ tables_query.2 x c hc hs hhex hb) u u' hg hg'
+
+/-- on the pieces: the user info -/
+theorem canonG_userinfo_subst (puny : Str → Str) (o : Opts) (g : UrlG) (x y m1 m2 : Str)
+    (hu : g.ui = some (x ++ (m1 ++ y))) (hn1 : m1 ≠ []) (hn2 : m2 ≠ [])
+    (h1 : ':' ∉ m1) (h2 : ':' ∉ m2) (H : Interch Gen.Quote.unsafeForAuthItem x m1 m2)
+    (hw : g.wf = true) (hw' : ({ g with ui := some (x ++ (m2 ++ y)) } : UrlG).wf = true) :
+    canonG puny o ({ g with ui := some (x ++ (m2 ++ y)) } : UrlG) = canonG puny o g := by
+  have key : canonOpt o.quoted unquoteAuthItem (some (splitFirst (x ++ (m2 ++ y)) ':').1) =
+        canonOpt o.quoted unquoteAuthItem (some (splitFirst (x ++ (m1 ++ y)) ':').1) ∧
+      canonOpt o.quoted unquoteAuthItem (splitFirst (x ++ (m2 ++ y)) ':').2 =
+        canonOpt o.quoted unquoteAuthItem (splitFirst (x ++ (m1 ++ y)) ':').2 := by
+    rcases splitFirst_subst_shape ':' x y m1 m2 h1 h2 with ⟨k, v, hv, f1, f2⟩ | ⟨t, r, f1, f2⟩
+    · rw [f1, f2]
+      refine ⟨rfl, ?_⟩
+      have := H v y hv
+      simp only [canonOpt, isEmpty_mid _ _ _ hn1, isEmpty_mid _ _ _ hn2, Bool.false_eq_true, if_false,
+        requote, unquoteAuthItem] at this ⊢
+      rw [this]
+    · rw [f1, f2]
+      refine ⟨?_, rfl⟩
+      have := H x t (List.suffix_refl _)
+      simp only [canonOpt, isEmpty_mid _ _ _ hn1, isEmpty_mid _ _ _ hn2, Bool.false_eq_true, if_false,
+        requote, unquoteAuthItem] at this ⊢
+      rw [this]
+  refine canonG_congr puny o g _ hw hw' rfl ?_ ?_ rfl (fun _ => rfl) rfl rfl rfl rfl rfl rfl Iff.rfl
+  · simp only [hu, Option.map_some]; exact key.1
+  · simp only [hu, Option.bind_some]; exact key.2
+
+/-- **interchangeable pieces inside the user info never change the result** (general form) -/
+theorem canon_userinfo_subst_string (puny : Str → Str) (o : Opts) (hdp : ProtoLetters o.defaultProtocol)
+    (g : UrlG) (x y m1 m2 : Str) (hu : g.ui = some (x ++ (m1 ++ y))) (hn1 : m1 ≠ []) (hn2 : m2 ≠ [])
+    (h1 : ':' ∉ m1) (h2 : ':' ∉ m2) (H : Interch Gen.Quote.unsafeForAuthItem x m1 m2)
+    (u u' : Str) (hg : CleansTo g u) (hg' : CleansTo { g with ui := some (x ++ (m2 ++ y)) } u') :
+    canonicalizeUrl puny o u' = canonicalizeUrl puny o u :=
+  string_of_canonG puny o hdp _ _ u u' hg hg'
+    (canonG_userinfo_subst puny o g x y m1 m2 hu hn1 hn2 h1 h2 H hg.wf hg'.wf)
+
+/-- **`%41` vs `A` inside the user name or the password** -/
+theorem canon_userinfo_escaped_ascii_string (puny : Str → Str) (o : Opts) (hdp : ProtoLetters o.defaultProtocol)
+    (g : UrlG) (x y : Str) (h1 h2 : Char) (hu : g.ui = some (x ++ '%' :: h1 :: h2 :: y))
+    (hh1 : isHexDigit h1 = true) (hh2 : isHexDigit h2 = true)
+    (hk : keepEsc Gen.Quote.unsafeForAuthItem (byteOf h1 h2) = false) (hlt : (byteOf h1 h2).toNat < 0x80)
+    (hctx : isHexDigit (Char.ofNat (byteOf h1 h2).toNat) = true → openPct x = false)
+    (u u' : Str) (hg : CleansTo g u)
+    (hg' : CleansTo { g with ui := some (x ++ Char.ofNat (byteOf h1 h2).toNat :: y) } u') :
+    canonicalizeUrl puny o u' = canonicalizeUrl puny o u :=
+  canon_userinfo_subst_string puny o hdp g x y ['%', h1, h2] [Char.ofNat (byteOf h1 h2).toNat] hu
+    (by simp) (by simp) (not_mem_esc3 (by decide) (by decide) hh1 hh2)
+    (by simpa using (decoded_ne_of_mem hk hlt (d := ':') (by decide) (by decide)).symm)
+    (interch_ascii _ tables_auth.1 x h1 h2 hh1 hh2 hk hlt hctx) u u' hg hg'
+
+/-- **a non-ASCII character vs its escaped UTF-8 bytes inside the user info** (a raw space cannot
+stand in an authority the class accepts after cleaning only at its ends; `%20` vs a raw space
+inside the user info is `canon_userinfo_subst_string` with `interch_space`) -/
+theorem canon_userinfo_escaped_utf8_string (puny : Str → Str) (o : Opts) (hdp : ProtoLetters o.defaultProtocol)
+    (g : UrlG) (x y : Str) (c : Char) (hc : 0x80 ≤ c.toNat) (hs : List (Char × Char))
+    (hhex : ∀ p ∈ hs, isHexDigit p.1 = true ∧ isHexDigit p.2 = true)
+    (hb : hs.map (fun p => byteOf p.1 p.2) = utf8 c)
+    (hu : g.ui = some (x ++ (escStr hs ++ y)))
+    (u u' : Str) (hg : CleansTo g u) (hg' : CleansTo { g with ui := some (x ++ c :: y) } u') :
+    canonicalizeUrl puny o u' = canonicalizeUrl puny o u := by
+  have hne : escStr hs ≠ [] := by
+    intro e
+    have : hs ≠ [] := by intro e2; rw [e2] at hb; exact utf8_ne_nil c hb.symm
+    cases hs with
+    | nil => exact this rfl
+    | cons p r => simp [escStr] at e
+  have ha : c ≠ ':' := char_ne_of_toNat (by have : (':' : Char).toNat = 58 := rfl; omega)
+  exact canon_userinfo_subst_string puny o hdp g x y (escStr hs) [c] hu hne (by simp)
+    (not_mem_escStr ⟨by decide, by decide⟩ hs hhex) (by simpa using ha.symm)
+    (interch_utf8 _ tables_auth.2 x c hc hs hhex hb) u u' hg hg'
+
+/-- **a raw space vs `%20` inside the user info** -/
+theorem canon_userinfo_escaped_space_string (puny : Str → Str) (o : Opts) (hdp : ProtoLetters o.defaultProtocol)
+    (g : UrlG) (x y : Str) (hu : g.ui = some (x ++ '%' :: '2' :: '0' :: y))
+    (u u' : Str) (hg : CleansTo g u) (hg' : CleansTo { g with ui := some (x ++ ' ' :: y) } u') :
+    canonicalizeUrl puny o u' = canonicalizeUrl puny o u :=
+  canon_userinfo_subst_string puny o hdp g x y ['%', '2', '0'] [' '] hu (by simp) (by simp)
+    (by decide) (by decide) (interch_space _ x) u u' hg hg'
 
 /-! ## non-vacuity -/
 
@@ -768,6 +972,22 @@ example :
       (by decide +kernel) (by decide +kernel),
    canon_path_escaped_space_string id exO protoLetters_https exG "/p".toList "q/r".toList rfl _ _
       (by decide +kernel) (by decide +kernel)⟩
+
+/-- escape spelling inside a query value and inside the user name -/
+example :
+    canonicalizeUrl id exO "http://u:p@a.com/p%20q/r?k=A&x".toList =
+      canonicalizeUrl id exO "http://u:p@a.com/p%20q/r?k=%41&x".toList ∧
+    canonicalizeUrl id exO "http://u:p@a.com/p%20q/r".toList =
+      canonicalizeUrl id exO "http://%75:p@a.com/p%20q/r".toList ∧
+    canonicalizeUrl id exO "http://%75:p@a.com/p%20q/r?k=%41&x".toList =
+      some "http://u:p@a.com/p%20q/r?k=A&x".toList :=
+  ⟨canon_query_escaped_ascii_string id exO protoLetters_https { exG with query := some "k=%41&x".toList }
+      "k=".toList "&x".toList '4' '1' rfl (by decide) (by decide) (by decide +kernel) (by decide +kernel)
+      (fun _ => by decide) _ _ (by decide +kernel) (by decide +kernel),
+   canon_userinfo_escaped_ascii_string id exO protoLetters_https { exG with ui := some "%75:p".toList }
+      [] ":p".toList '7' '5' rfl (by decide) (by decide) (by decide +kernel) (by decide +kernel)
+      (fun _ => by decide) _ _ (by decide +kernel) (by decide +kernel),
+   by decide +kernel⟩
 
 /-- a decoder that knows one label (`xn--caf-dma` ↦ `café`, any letter case), to exercise the
 punycode clause on something else than the identity -/
